@@ -147,15 +147,28 @@ fn run_client(addr: SocketAddr, plan: ClientPlan, rng_seed: u64, barrier_reached
     while !connect_logged(local) && t.elapsed() < Duration::from_secs(5) {
         std::thread::sleep(Duration::from_micros(300));
     }
-    let send_frames = |frames: Vec<RefFrame>| -> bool {
+    // `split` != 0: every frame is written in two pieces with a pause, the cut at (split mod length), i.e. anywhere
+    // in header, key or payload
+    let send_frames_split = |frames: Vec<RefFrame>, split: u64| -> bool {
         let mut w = writer.lock().unwrap();
         for f in frames {
-            if w.write_all(&f.encode()).is_err() {
+            let enc = f.encode();
+            if split != 0 && enc.len() > 2 {
+                let cut = 1 + (split as usize) % (enc.len() - 1);
+                if w.write_all(&enc[..cut]).is_err() {
+                    return false;
+                }
+                std::thread::sleep(Duration::from_micros(800 + split % 2500));
+                if w.write_all(&enc[cut..]).is_err() {
+                    return false;
+                }
+            } else if w.write_all(&enc).is_err() {
                 return false;
             }
         }
         true
     };
+    let send_frames = |frames: Vec<RefFrame>| -> bool { send_frames_split(frames, 0) };
     let key = |rng: &mut Rng| {
         let k = rng.bytes(4);
         Some([k[0], k[1], k[2], k[3]])
@@ -193,7 +206,9 @@ fn run_client(addr: SocketAddr, plan: ClientPlan, rng_seed: u64, barrier_reached
                     }
                     continue;
                 }
-                send_frames(frames);
+                // one message in three: every frame in two writes, cut anywhere (also inside the payload), with a pause
+                let split = if rng.chance(1, 3) { rng.next_u64() | 1 } else { 0 };
+                send_frames_split(frames, split);
             }
         }
     }
@@ -518,6 +533,113 @@ fn scenario(r: &mut Report, seed: u64, k: u64) {
 }
 
 
+/// Heartbeat with a client that is busy all the time: it sends a message every millisecond for three times the
+/// heartbeat timeout and answers every ping it receives. It is healthy, so it must not be disconnected, and all of
+/// its messages must be dispatched, in order.
+fn busy_heartbeat_scenario(r: &mut Report, seed: u64, k: u64) {
+    let mut rng = Rng::derive(seed, 0x12c0_0000 + k);
+    let poll: Option<Duration> = *rng.pick(&[None, Some(Duration::from_millis(1)), Some(Duration::from_millis(10))]);
+    let (interval_ms, timeout_ms) = (50u64, 300u64);
+    let nmsgs = 900usize;
+    let replay = vec!["c12".to_string(), "--seed".into(), seed.to_string(), "--busy".into(), k.to_string()];
+    let port = hvcommon::net::free_port("127.0.0.1");
+    let addr: SocketAddr = format!("127.0.0.1:{}", port).parse().unwrap();
+    let state = Arc::new(St { log: Mutex::new(Vec::new()) });
+    let (ws_tx, ws_rx) = channel();
+    let (app_tx, app_rx) = channel();
+    let mut wsapp: AsyncWebsocketApp<Arc<St>> = AsyncWebsocketApp::new_unlinked_with_config(state.clone(), 1).with_polling_interval(poll).with_shutdown(ws_rx).with_heartbeat(Heartbeat::new(Duration::from_millis(interval_ms), Duration::from_millis(timeout_ms)));
+    wsapp.on_connect(|s: AsyncStream, st: Arc<Arc<St>>| {
+        st.log.lock().unwrap().push((Ev::Connect(s.peer_addr()), Instant::now()));
+    });
+    wsapp.on_disconnect(|s: AsyncStream, st: Arc<Arc<St>>| {
+        st.log.lock().unwrap().push((Ev::Disconnect(s.peer_addr()), Instant::now()));
+    });
+    wsapp.on_message(|s: AsyncStream, m: Message, st: Arc<Arc<St>>| {
+        let text = String::from_utf8_lossy(m.bytes()).to_string();
+        let id = text.splitn(3, ':').nth(1).unwrap_or("").to_string();
+        st.log.lock().unwrap().push((Ev::Message(s.peer_addr(), id), Instant::now()));
+    });
+    let hook = wsapp.connect_hook().unwrap();
+    let app: App<()> = App::new_with_config(2, ()).with_websocket_route("/ws", async_websocket_handler(hook)).with_shutdown(app_rx);
+    std::thread::spawn(move || {
+        let _ = app.run(addr);
+    });
+    let (done_tx, done_rx) = channel();
+    std::thread::spawn(move || {
+        wsapp.run();
+        done_tx.send(()).ok();
+    });
+    for _ in 0..400 {
+        if TcpStream::connect(addr).is_ok() {
+            break;
+        }
+        std::thread::sleep(Duration::from_millis(3));
+    }
+    let mut steps = Vec::new();
+    for j in 0..nmsgs {
+        steps.push(Step::Send('N', format!("b{}", j), 1, false));
+        steps.push(Step::Pause(1000));
+    }
+    let plan = ClientPlan { steps, graceful: true, leaves_early: true };
+    let st3 = state.clone();
+    let res = run_client(addr, plan, seed ^ k, Arc::new(AtomicBool::new(false)), Arc::new(AtomicBool::new(true)), move |a| st3.log.lock().unwrap().iter().any(|(e, _)| *e == Ev::Connect(a)));
+    // the disconnect that follows the client's own Close
+    let t = Instant::now();
+    while t.elapsed() < Duration::from_secs(3) && !state.log.lock().unwrap().iter().any(|(e, _)| matches!(e, Ev::Disconnect(_))) {
+        std::thread::sleep(Duration::from_millis(5));
+    }
+    ws_tx.send(()).ok();
+    let returned = done_rx.recv_timeout(Duration::from_secs(10)).is_ok();
+    app_tx.send(()).ok();
+    r.eval();
+    r.count("busy_heartbeat_scenarios", 1);
+    r.nontrivial(0xb5b5_0000 + k);
+    let log: Vec<(Ev, Instant)> = state.log.lock().unwrap().clone();
+    let desc = J::obj(vec![("heartbeat_interval_ms", J::u(interval_ms)), ("heartbeat_timeout_ms", J::u(timeout_ms)), ("poll_interval_ms", poll.map(|p| J::u(p.as_millis() as u64)).unwrap_or(J::Null)), ("messages", J::u(nmsgs as u64)), ("client_period_ms", J::u(1))]);
+    let mut viol = |r: &mut Report, sig: &str, what: String| {
+        r.violation(sig, format!("[busy client, heartbeat {} ms / timeout {} ms, poll {:?}] {}", interval_ms, timeout_ms, poll, what), J::obj(vec![("scenario", desc.clone()), ("observed", J::s(&what))]), replay.clone());
+    };
+    if !returned {
+        viol(r, "C12/run-did-not-return", "AsyncWebsocketApp::run had not returned 10 s after the shutdown signal".into());
+    }
+    if res.bad_frames.iter().any(|b| b.starts_with("HARNESS:")) || res.sent.len() < nmsgs {
+        // the client could not send everything: either the harness failed or the server hung up on it (judged below)
+        if res.local.is_none() {
+            r.inconclusive("busy-heartbeat client could not complete its handshake");
+            return;
+        }
+    }
+    let last_sent = res.sent.last().map(|x| x.1);
+    let span_ms = match (res.sent.first(), res.sent.last()) {
+        (Some(a), Some(b)) => b.1.duration_since(a.1).as_millis() as u64,
+        _ => 0,
+    };
+    r.max("busy_client_sending_span_ms", span_ms);
+    let discs: Vec<Instant> = log.iter().filter(|(e, _)| matches!(e, Ev::Disconnect(_))).map(|x| x.1).collect();
+    let dispatched: Vec<String> = log.iter().filter_map(|(e, _)| if let Ev::Message(_, id) = e { Some(id.clone()) } else { None }).collect();
+    let want: Vec<String> = (0..nmsgs).map(|j| format!("b{}", j)).collect();
+    if let (Some(d), Some(ls)) = (discs.first(), last_sent) {
+        if *d < ls {
+            viol(r, "C12/healthy-client-disconnected", format!("the disconnect handler ran {} ms before the client had sent its last message, although the client answered every ping it received ({} pongs sent) and never stopped talking; {} of {} messages dispatched", ls.duration_since(*d).as_millis(), res.pongs.len(), dispatched.len(), nmsgs));
+            return;
+        }
+    }
+    if dispatched != want {
+        let first = dispatched.iter().zip(want.iter()).position(|(a, b)| a != b).unwrap_or(dispatched.len().min(want.len()));
+        viol(r, if dispatched.len() < want.len() { "C12/message-lost" } else { "C12/message-dispatched-twice" }, format!("{} of {} messages of the busy client dispatched (first difference at #{})", dispatched.len(), nmsgs, first));
+        return;
+    }
+    if discs.len() != 1 {
+        viol(r, "C12/disconnect-not-exactly-once", format!("{} Disconnect events for the busy client after its Close", discs.len()));
+        return;
+    }
+    if span_ms < timeout_ms * 2 {
+        r.inconclusive(format!("busy client finished sending in {} ms, less than twice the heartbeat timeout", span_ms));
+        return;
+    }
+    r.count("busy_clients_kept_and_fully_dispatched", 1);
+}
+
 fn bulk_byte(i: usize, k: u64) -> u8 {
     b'a' + ((i as u64).wrapping_mul(7).wrapping_add(i as u64 >> 9).wrapping_add(k) % 26) as u8
 }
@@ -689,8 +811,10 @@ pub fn main(args: &Args) {
     let n: u64 = if args.thorough() { 1500 } else { 160 };
     let nbulk: u64 = if args.thorough() { 64 } else { 8 };
     let bulk_only = args.get("bulk").map(|s| s.parse::<u64>().unwrap());
+    let nbusy: u64 = if args.thorough() { 48 } else { 8 };
+    let busy_only = args.get("busy").map(|s| s.parse::<u64>().unwrap());
     humphrey::verif::set_failpoint_handler(fp_handler);
-    let reports = par(if only.is_some() || bulk_only.is_some() { 1 } else { 8 }, move |shard, nsh| {
+    let reports = par(if only.is_some() || bulk_only.is_some() || busy_only.is_some() { 1 } else { 8 }, move |shard, nsh| {
         let mut r = Report::new();
         if let Some(b) = bulk_only {
             bulk_scenario(&mut r, seed, b);
@@ -700,6 +824,17 @@ pub fn main(args: &Args) {
             let mut b = shard as u64;
             while b < nbulk {
                 bulk_scenario(&mut r, seed, b);
+                b += nsh as u64;
+            }
+        }
+        if let Some(b) = busy_only {
+            busy_heartbeat_scenario(&mut r, seed, b);
+            return r;
+        }
+        if only.is_none() {
+            let mut b = shard as u64;
+            while b < nbusy {
+                busy_heartbeat_scenario(&mut r, seed, b);
                 b += nsh as u64;
             }
         }
@@ -719,5 +854,5 @@ pub fn main(args: &Args) {
         total.nontrivial(1);
         total.nontrivial(2);
     }
-    total.write(out, "scenarios of 1..8 reference clients against AsyncWebsocketApp::new_unlinked_with_config linked to a real App through async_websocket_handler: handler pools of 1 (every other scenario) or 2..8 threads, poll interval none / 1 ms / 10 ms, heartbeat off or (100 ms, 1.5 s); each client runs a random script over {text/binary messages in 1..4 fragments with pings interleaved, several per poll interval, ping, pauses <= 5 ms}, a quarter leave early with Close, with heartbeat a quarter disconnect abruptly; messages marked U trigger a unicast reply from the handler, B a broadcast; every connect handler broadcasts a join notice, an external AsyncSender broadcasts concurrently; half of the fragmented messages are sent fragment by fragment with pauses; seeded delays at the three poll-loop failpoints; ends with shutdown of both apps; plus bulk scenarios: a client requests a 6..16 MiB unicast and does not read for 0.3..1 s (more than the kernel buffers), then must receive it intact followed by a small unicast and a broadcast, which an idle second client must receive too. distinct = distinct scenarios; every scenario is non-trivial (all events of all clients are judged)", None, &["order is asserted only with a single handler thread (with more, handler entry order may legitimately differ from dispatch order)", "a broadcast must reach a client exactly once if that client's Connect was logged before the broadcast was submitted and it stayed until the final barrier", "abruptly disconnected clients: at-most-once and no foreign ids (the kernel may discard their unread bytes)"]);
+    total.write(out, "scenarios of 1..8 reference clients against AsyncWebsocketApp::new_unlinked_with_config linked to a real App through async_websocket_handler: handler pools of 1 (every other scenario) or 2..8 threads, poll interval none / 1 ms / 10 ms, heartbeat off or (100 ms, 1.5 s); each client runs a random script over {text/binary messages in 1..4 fragments with pings interleaved, several per poll interval, ping, pauses <= 5 ms}, a quarter leave early with Close, with heartbeat a quarter disconnect abruptly; messages marked U trigger a unicast reply from the handler, B a broadcast; every connect handler broadcasts a join notice, an external AsyncSender broadcasts concurrently; half of the fragmented messages are sent fragment by fragment with pauses, a third of the others with every frame cut in two writes (anywhere in header, key or payload) 0.8-3.3 ms apart; seeded delays at the three poll-loop failpoints; ends with shutdown of both apps; plus bulk scenarios: a client requests a 6..16 MiB unicast and does not read for 0.3..1 s (more than the kernel buffers), then must receive it intact followed by a small unicast and a broadcast, which an idle second client must receive too; and busy-heartbeat scenarios: heartbeat 50 ms / timeout 300 ms, one client sending a message every millisecond for ~1 s while answering every ping: it must stay connected and all 900 messages must be dispatched in order. distinct = distinct scenarios; every scenario is non-trivial (all events of all clients are judged)", None, &["order is asserted only with a single handler thread (with more, handler entry order may legitimately differ from dispatch order)", "a broadcast must reach a client exactly once if that client's Connect was logged before the broadcast was submitted and it stayed until the final barrier", "abruptly disconnected clients: at-most-once and no foreign ids (the kernel may discard their unread bytes)"]);
 }
